@@ -19,6 +19,16 @@ L3: crash injection `strace -e inject=<syscall>:signal=KILL:when=n -P results.cs
     `CBO.fit_surrogate(<file>)` must load them; a new search created in the same log_dir must
     rename the file under a fresh name without changing a byte of any earlier file, load it and
     run; every snapshot of a finished search's results must still be on disk in a distinct file.
+
+Text layer (lean/Model/FilesText.lean over lean/Model/Csv.lean): a third of the searches store text with
+CSV-special characters (metadata strings, a categorical hyperparameter, a metadata key, the failure label:
+comma, quote, bare "\r", "\n", "\r\n", blanks at either end, empty, non-ASCII).  The bytes of results.csv are read by
+the Lean `csv.reader` model, every record is classified against the header record (`abstract`) and the
+result goes through `wellFormedPrefix`; the rows must show the cells the run-functions logged (`cellsOk`).
+L2: the reader model == Python's csv.reader on the bytes; the writer model's rendering of the records read
+back == the bytes (both writers); pandas.read_csv gives the same rows / job ids / text cells.  L3: a row
+that a reader sees split / merged / altered is a violation at every kill point and after a normal return;
+what fit_surrogate obtains from pandas.read_csv must be the rows on disk.
 """
 import csv
 import io
@@ -66,18 +76,140 @@ def _fp_nd(scn):
     return FP_NO_DESTROY_EARLY if scn.get("early") else FP_NO_DESTROY
 
 
+# --------------------------------------------------------------------------- cell values, CSV text
+
+# values a run-function may return in its metadata (captured output, labels, paths, notes) and choices a
+# categorical hyperparameter may have: every character class the CSV text layer treats specially (delimiter,
+# quote, bare carriage return, line feed, both, blanks at either end, the empty string, non-ASCII).  None of
+# them is a number, a boolean or a missing-value spelling (how pandas TYPES a column is not C15's business).
+HOSTILE = ["cr\rx", "l1\nl2", 'q"r', "x\r", "a,b", " lead", "l1\r\nl2", "\ry", "trail ", "", "\u00e9\u2713 \u4e2d",
+           '","', "two\r\rcr", "'s", "t\tb", "plain", "\r", "end\n"]
+HOSTILE_CHOICES = ["cr\rx", "l1\nl2", 'q"r', "a,b", " lead", "trail ", "\u00e9\u2713", "plain", "x\r"]
+CELL_COLUMNS = ["p:c", "m:log", "m:k,1"]  # the columns whose text the run-function logs (a hostile key, too)
+
+
+def _hostile_cells(seed, jid):
+    n = len(HOSTILE)
+    return HOSTILE[(jid + seed) % n], HOSTILE[(2 * jid + 1 + seed // 7) % n]
+
+
+def _csv_scan(text):
+    """the `csv.reader` state machine over a whole text (line for line `parse` of lean/Model/Csv.lean; what
+    `csv.reader` gives for a file opened with newline=""): an unquoted "\\r", "\\n" or "\\r\\n" ends a record, a blank
+    line is the record [].  Returns (records, ends, ended): ends[i] = offset just behind record i and its terminator,
+    ended = the text ends between two records (False: inside the last one).  Total: never raises."""
+    SR, CR, SF, IF, IQ, QQ = range(6)
+    st, recs, ends, row, f = SR, [], [], [], []
+    for i, c in enumerate(text):
+        if st in (SR, CR):
+            if st == CR and c == "\n":
+                st = SR
+                ends[-1] = i + 1
+            elif c == "\r" or c == "\n":
+                recs.append([])
+                ends.append(i + 1)
+                st = CR if c == "\r" else SR
+            elif c == '"':
+                st, row, f = IQ, [], []
+            elif c == ",":
+                st, row, f = SF, [""], []
+            else:
+                st, row, f = IF, [], [c]
+        elif st == SF:
+            if c == "\r" or c == "\n":
+                recs.append(row + [""])
+                ends.append(i + 1)
+                st = CR if c == "\r" else SR
+            elif c == '"':
+                st, f = IQ, []
+            elif c == ",":
+                row.append("")
+            else:
+                st, f = IF, [c]
+        elif st == IF:
+            if c == "\r" or c == "\n":
+                recs.append(row + ["".join(f)])
+                ends.append(i + 1)
+                st = CR if c == "\r" else SR
+            elif c == ",":
+                row.append("".join(f))
+                st, f = SF, []
+            else:
+                f.append(c)
+        elif st == IQ:
+            if c == '"':
+                st = QQ
+            else:
+                f.append(c)
+        else:  # QQ: a quote seen inside quotes
+            if c == '"':
+                f.append('"')
+                st = IQ
+            elif c == ",":
+                row.append("".join(f))
+                st, f = SF, []
+            elif c == "\r" or c == "\n":
+                recs.append(row + ["".join(f)])
+                ends.append(i + 1)
+                st = CR if c == "\r" else SR
+            else:
+                f.append(c)
+                st = IF
+    ended = st in (SR, CR)
+    if not ended:
+        recs.append(row + ["".join(f)])
+        ends.append(len(text))
+    return recs, ends, ended
+
+
+def _records(text):
+    """the records of a text, blank lines dropped (= `records` of lean/Model/FilesText.lean)"""
+    return [r for r in _csv_scan(text)[0] if r]
+
+
+def _py_records(text):
+    """the same through the real csv.reader (None when it refuses the text)"""
+    try:
+        return [r for r in csv.reader(io.StringIO(text, newline="")) if r]
+    except csv.Error:
+        return None
+
+
+def _header_of(path):
+    try:
+        with open(path, newline="", errors="replace") as f:
+            recs = _records(f.read(1 << 16))
+        return recs[0] if recs else []
+    except OSError:
+        return []
+
+
+def _complete_prefix(text):
+    """the text without the record it ends inside of (the whole text when it ends between two records)"""
+    raw, ends, ended = _csv_scan(text)
+    if ended:
+        return text
+    return text[: ends[-2]] if len(ends) > 1 else ""
+
+
 # --------------------------------------------------------------------------- the traced program
 
 
-def _problem(wide):
+def _problem(wide, hostile=False):
     from deephyper.hpo import HpProblem
 
     pb = HpProblem()
     pb.add_hyperparameter((0.0, 1.0), "x")
     pb.add_hyperparameter((0, 10), "k")
+    if hostile:
+        pb.add_hyperparameter(list(HOSTILE_CHOICES), "c")
     for i in range(wide):
         pb.add_hyperparameter((0.0, 1.0), f"w{i:03d}")
     return pb
+
+
+def _is_hostile(run):
+    return run.get("cells") == "hostile"
 
 
 _SELFKILL = {"at": None, "k": 0, "n": 0}
@@ -106,6 +238,7 @@ def _make_search(run, idx, log_dir, side, reuse=None):
     else:
         fd = os.open(os.path.join(side, "done.log"), os.O_WRONLY | os.O_CREAT | os.O_APPEND, 0o644)
         nobj, fail, batch, sleep = run["nobj"], run.get("fail", "none"), run["batch"], run.get("sleep", False)
+        hostile, hseed = _is_hostile(run), run.get("seed", 1)
         cell = {"idx": idx, "first": None}
         ctl = _SELFKILL  # harness-made kill points that are not system calls on results.csv
 
@@ -118,14 +251,22 @@ def _make_search(run, idx, log_dir, side, reuse=None):
             failed = (fail == "first" and rel < batch) or (fail == "some" and rel % 3 == 1) or fail == "all"
             if sleep:
                 await asyncio.sleep(0.04 + 0.09 * (jid % 3))
-            # '<search>.<job> <F | number of objectives it returns>' : what the row of this evaluation has to show
-            os.write(fd, f"{cell['idx']}.{jid} {'F' if failed else nobj}\n".encode())
+            # '<search>.<job> <F | number of objectives it returns> [<json: text of some cells>]' : what the row of
+            # this evaluation has to show
+            cells, meta = "", None
+            if hostile:
+                a, b = _hostile_cells(hseed, jid)
+                meta = {"log": a, "k,1": b}
+                cells = " " + json.dumps({"p:c": job.parameters.get("c"), "m:log": a, "m:k,1": b})
+            os.write(fd, f"{cell['idx']}.{jid} {'F' if failed else nobj}{cells}\n".encode())
             _maybe_selfkill(ctl, "done")
             if failed:
-                return "F_injected"
-            if nobj == 1:
-                return x + k
-            return tuple(x * (i + 1) - k * (1 - i) for i in range(nobj))
+                out = "F_cr\rx" if hostile else "F_injected"
+            elif nobj == 1:
+                out = x + k
+            else:
+                out = tuple(x * (i + 1) - k * (1 - i) for i in range(nobj))
+            return out if meta is None else {"objective": out, "metadata": meta}
 
         ev = Evaluator.create(run_function, method="serial", method_kwargs={"num_workers": run["batch"]})
         # dump-returned log, independent of the file: the evaluator's public dump method is wrapped from outside;
@@ -144,7 +285,7 @@ def _make_search(run, idx, log_dir, side, reuse=None):
             return out
 
         ev.dump_jobs_done_to_csv = dump_and_log
-    pb = _problem(run.get("wide", 0))
+    pb = _problem(run.get("wide", 0), _is_hostile(run))
     kind, seed = run["kind"], run.get("seed", 1)
     if kind == "random":
         s = RandomSearch(pb, ev, log_dir=log_dir, random_state=seed)
@@ -213,8 +354,27 @@ def _program(scn, log_dir, side):
             act(idx, run, create(idx, run))
 
 
+def _frame_summary(df):
+    """what a reader got out of a results file: number of rows, job ids, the text cells the run-functions log"""
+    import pandas as pd
+
+    out = {"n": int(len(df)), "columns": [str(c) for c in df.columns]}
+    if "job_id" in df.columns:
+        ids = []
+        for v in df["job_id"].tolist():
+            try:
+                ids.append(int(v) if float(v) == int(v) else None)
+            except (TypeError, ValueError, OverflowError):
+                ids.append(None)
+        out["job_id"] = ids
+    out["cells"] = {c: [None if pd.isna(v) else str(v) for v in df[c].tolist()] for c in CELL_COLUMNS if c in df.columns}
+    return out
+
+
 def _continuation(scn, log_dir, side):
-    """after a kill: fit_surrogate on what is on disk, then a new search in the same directory"""
+    """after a kill: pandas and fit_surrogate on what is on disk, then a new search in the same directory"""
+    import pandas as pd
+
     from deephyper.evaluator import Evaluator
     from deephyper.hpo import CBO
 
@@ -223,23 +383,44 @@ def _continuation(scn, log_dir, side):
     res = os.path.join(log_dir, "results.csv")
     if os.path.exists(res):
         # the search that continues is of the kind that wrote the file (number of objectives, space)
-        with open(res) as f:
-            cols = f.readline().strip().split(",")
+        cols = _header_of(res)
         nobj = sum(1 for c in cols if re.match(r"objective_\d+$", c))
         if nobj or "objective" in cols:
             last["nobj"] = nobj or 1
             last["wide"] = sum(1 for c in cols if re.match(r"p:w\d+$", c))
-    pb = _problem(last.get("wide", 0))
+            last["cells"] = "hostile" if "p:c" in cols else "benign"
+    pb = _problem(last.get("wide", 0), _is_hostile(last))
+    out["cells"] = "hostile" if _is_hostile(last) else "benign"
     kw = dict(surrogate_model="ET", surrogate_model_kwargs={"n_estimators": 2}, n_initial_points=2, n_points=64,
               acq_optimizer="sampling", verbose=0)
     if os.path.exists(res):
+        # a plain pandas.read_csv, as any user would reload the file
+        try:
+            out["pandas"] = _frame_summary(pd.read_csv(res))
+        except BaseException as e:  # noqa
+            out["pandas"] = {"err": f"{type(e).__name__}: {e}"[:300]}
+        # fit_surrogate; what it reads through pandas.read_csv is observed from outside (the library call, not the repo)
+        seen, orig = [], pd.read_csv
+
+        def spy(*a, **k):
+            df = orig(*a, **k)
+            try:
+                seen.append(_frame_summary(df))
+            except Exception:  # noqa
+                pass
+            return df
         try:
             other = os.path.join(side, "fit_dir")
             s = CBO(pb, lambda job: 0.0, log_dir=other, random_state=3, **kw)
-            s.fit_surrogate(res)
+            pd.read_csv = spy
+            try:
+                s.fit_surrogate(res)
+            finally:
+                pd.read_csv = orig
             out["fit"] = "ok"
         except BaseException as e:  # noqa
             out["fit"] = f"{type(e).__name__}: {e}"[:300]
+        out["fit_read"] = seen[-1:]
     before = set(os.listdir(log_dir))
     try:
         idx = len(scn["runs"])
@@ -493,15 +674,12 @@ def _tag_lines(ops):
             owner.setdefault(o["n"], sid)
         elif o["op"] == "write":
             data, n = o["data"], o["n"]
-            pieces = data.split("\n")
-            complete = pieces[-1] == ""
-            if complete:
-                pieces = pieces[:-1]
+            # the payload as the CSV records a reader sees in it (a cell may hold line breaks inside quotes)
+            raw, _, complete = _csv_scan(data)
+            o["complete"] = complete
+            pieces = [(r, k == len(raw) - 1 and not complete) for k, r in enumerate(raw) if r]
             tags = []
-            for i, piece in enumerate(pieces):
-                piece = piece[:-1] if piece.endswith("\r") else piece
-                cells = next(csv.reader([piece]), [])
-                torn = (i == len(pieces) - 1) and not complete
+            for cells, torn in pieces:
                 if "job_id" in cells and not torn:
                     hdr[n] = cells
                     tags.append(["h", cells[-1] == "pareto_efficient"])
@@ -513,8 +691,11 @@ def _tag_lines(ops):
                     continue
                 base = len(h) - (1 if h[-1] == "pareto_efficient" else 0)
                 try:
-                    jid = int(cells[h.index("job_id")])
+                    jc = cells[h.index("job_id")]
+                    jid = int(jc) if jc.isascii() and jc.isdigit() else None
                 except Exception:
+                    jid = None
+                if jid is None:
                     tags.append(["t", owner.get(n, sid), 0])
                     continue
                 if torn or len(cells) not in (base, base + 1):
@@ -596,10 +777,9 @@ def _fit_file(path, base):
     from deephyper.hpo import CBO
 
     try:
-        with open(path) as f:
-            cols = f.readline().strip().split(",")
+        cols = _header_of(path)
         wide = sum(1 for c in cols if re.match(r"p:w\d+$", c))
-        s = CBO(_problem(wide), lambda job: 0.0, log_dir=os.path.join(base, "fitld"), random_state=1,
+        s = CBO(_problem(wide, "p:c" in cols), lambda job: 0.0, log_dir=os.path.join(base, "fitld"), random_state=1,
                 surrogate_model="ET", surrogate_model_kwargs={"n_estimators": 2}, n_points=64, acq_optimizer="sampling")
         s.fit_surrogate(path)
         return "ok"
@@ -614,7 +794,8 @@ def _torn_variants(raw, log_dir, base):
     kop = next((o for o in reversed(raw) if o.get("killed")), None)
     if kop is None or kop["op"] != "write" or not _is_result_name(kop["n"]):
         return []
-    data = kop["data"].encode()
+    # strace printed the payload byte by byte (everything outside printable ASCII escaped): latin-1 gives the bytes back
+    data = kop["data"].encode("latin-1", "replace")
     n = len(data)
     cuts = {1, n // 2, n - 1}
     nl = data.find(b"\n")
@@ -642,7 +823,8 @@ def _torn_variants(raw, log_dir, base):
 
 
 def _mutations(text):
-    lines = text.splitlines(keepends=True)
+    ends = _csv_scan(text)[1]
+    lines = [text[a:b] for a, b in zip([0] + ends[:-1], ends)]  # one piece per record (cells may hold line breaks)
     H, R = lines[0], lines[1:]
     ext = H.strip().endswith("pareto_efficient")
     out = {"intact": text, "empty": "", "no-header": "".join(R), "header-only": H,
@@ -666,7 +848,7 @@ def _task_fit(task):
             with open(path, "w", newline="") as f:
                 f.write(text)
             try:
-                s = CBO(_problem(task["wide"]), lambda job: 0.0, log_dir=os.path.join(base, "ld"), random_state=1,
+                s = CBO(_problem(task["wide"], task.get("hostile", False)), lambda job: 0.0, log_dir=os.path.join(base, "ld"), random_state=1,
                         surrogate_model="ET", surrogate_model_kwargs={"n_estimators": 2}, n_points=64, acq_optimizer="sampling")
                 s.fit_surrogate(path)
                 out[name] = "ok"
@@ -685,14 +867,18 @@ def _init_worker():
     logging.disable(logging.CRITICAL)
     base = tempfile.mkdtemp(prefix="warm", dir=_scratch())
     try:
-        for kind, nobj in (("random", 1), ("cbo", 2)):
-            ld = os.path.join(base, kind)
-            os.makedirs(ld)
-            s = _make_search({"kind": kind, "nobj": nobj, "batch": 2, "calls": [4]}, 0, ld, base)
-            s.search(max_evals=4)
-            s2 = _make_search({"kind": "cbo", "nobj": nobj, "batch": 1, "calls": [1]}, 1, ld, base)
-            s2.fit_surrogate(sorted(os.path.join(ld, n) for n in os.listdir(ld) if n.startswith("results_"))[0])
-            s2.search(max_evals=1)
+        for kind, nobj, cells in (("random", 1, "benign"), ("cbo", 2, "hostile")):
+            # only a warm-up: whatever the tree under test does here is found (and reported) by the traced runs
+            try:
+                ld = os.path.join(base, kind)
+                os.makedirs(ld)
+                s = _make_search({"kind": kind, "nobj": nobj, "batch": 2, "calls": [4], "cells": cells}, 0, ld, base)
+                s.search(max_evals=4)
+                s2 = _make_search({"kind": "cbo", "nobj": nobj, "batch": 1, "calls": [1], "cells": cells}, 1, ld, base)
+                s2.fit_surrogate(sorted(os.path.join(ld, n) for n in os.listdir(ld) if n.startswith("results_"))[0])
+                s2.search(max_evals=1)
+            except Exception:  # noqa
+                pass
     finally:
         shutil.rmtree(base, ignore_errors=True)
 
@@ -850,16 +1036,27 @@ def _done_status(done):
     """(search, job) -> 'F' or the number of objectives the run-function returned"""
     out = {}
     for l in done:
-        t = l.split()
+        t = l.split(" ", 2)
         a, b = t[0].split(".")
         out[(int(a), int(b))] = "F" if len(t) < 2 or t[1] == "F" else int(t[1])
+    return out
+
+
+def _done_cells(done, sid):
+    """job id -> {column: text} the run-functions of search `sid` logged (searches that log cells only)"""
+    out = {}
+    for l in done:
+        t = l.split(" ", 2)
+        a, b = t[0].split(".")
+        if int(a) == sid and len(t) == 3:
+            out[int(b)] = {k: v for k, v in json.loads(t[2]).items() if isinstance(v, str)}
     return out
 
 
 def _bad_objective_rows(text, sid, status):
     """rows of evaluations that SUCCEEDED (completion log) must carry their objectives: as many objective columns
     as the run-function returned values, every cell a number"""
-    rows = list(csv.reader(io.StringIO(text)))
+    rows = _records(text)
     if len(rows) < 2 or "job_id" not in rows[0]:
         return []
     h = rows[0]
@@ -869,7 +1066,7 @@ def _bad_objective_rows(text, sid, status):
         try:
             st = status.get((sid, int(r[jc])))
         except (ValueError, IndexError):
-            continue
+            continue  # not the row of an evaluation: the shape clauses say so
         if not isinstance(st, int):
             continue
         ok = len(cols) == st and len(r) > max(cols)
@@ -887,7 +1084,7 @@ def _bad_objective_rows(text, sid, status):
 def _done_jobs(done):
     out = []
     for l in done:
-        a, b = l.split()[0].split(".")
+        a, b = l.split(" ", 1)[0].split(".")
         out.append([int(a), int(b)])
     return out
 
@@ -932,7 +1129,18 @@ def _scenarios(ck):
         {"clock": "const", "runs": [{"kind": "random", "nobj": 1, "batch": 2, "calls": [2], "elsewhere": True},
                                     {"kind": "random", "nobj": 1, "batch": 2, "calls": [3, 1], "reuse": True},
                                     {"kind": "cbo", "nobj": 1, "batch": 1, "calls": [2], "reuse": True}]},
+        # stored text with CSV-special characters (metadata strings returned by the run-function, the value of a
+        # categorical hyperparameter, the failure label): rows appended by the evaluator, rewritten by the end of a
+        # multi-objective search(), appended again after a rewrite, rewritten again
+        {"runs": [{"kind": "random", "nobj": 2, "batch": 2, "calls": [3, 2], "cells": "hostile", "seed": 0}]},
+        {"runs": [{"kind": "cbo-dummy", "nobj": 3, "batch": 2, "calls": [5], "fail": "some", "cells": "hostile", "seed": 14}]},
+        # ... a second search in the same directory after a rewritten file, same time stamp
+        {"clock": "const", "runs": [{"kind": "random", "nobj": 2, "batch": 3, "calls": [3], "cells": "hostile", "seed": 7},
+                                    {"kind": "regevo", "nobj": 2, "batch": 2, "calls": [2, 2], "cells": "hostile", "seed": 15}]},
     ]
+    if ck.thorough:
+        # single objective (never rewritten: the evaluator's dialect through two calls), model-based
+        core.append({"runs": [{"kind": "cbo", "nobj": 1, "batch": 3, "calls": [4, 2], "cells": "hostile", "seed": 3}]})
     kinds = ["random", "random", "cbo", "cbo", "regevo", "eds", "cbo-dummy"]
     extra = []
     for t in range(ck.pick(3, 30)):
@@ -948,10 +1156,14 @@ def _scenarios(ck):
                          # 100-dimensional CBO costs seconds per ask and adds nothing to the file protocol
                          "wide": rng.choice([0, 0, 60, 120]) if kind == "random" and not reuse else 0,
                          "fail": rng.choice(["none", "none", "some", "first", "all"]),
+                         "cells": rng.choice(["benign", "benign", "hostile"]),
                          "seed": rng.randint(0, 10 ** 6)})
+            if runs[-1]["wide"]:
+                runs[-1]["cells"] = "benign"  # (a 100-column table of text cells adds nothing)
             if reuse and i:
                 # the evaluator (run-function, number of objectives, space) of the previous search is kept
-                runs[-1].update(reuse=True, nobj=runs[0]["nobj"], batch=runs[0]["batch"], fail=runs[0]["fail"], wide=0)
+                runs[-1].update(reuse=True, nobj=runs[0]["nobj"], batch=runs[0]["batch"], fail=runs[0]["fail"], wide=0,
+                                cells=runs[0]["cells"])
             if reuse and not i and rng.random() < 0.5:
                 runs[-1]["elsewhere"] = True
         extra.append({"clock": rng.choice(["real", "const"]), "runs": runs})
@@ -963,13 +1175,15 @@ def _scenarios(ck):
     for t in range(ck.pick(4, 16)):
         n = rng.randint(2, 5) if t else 5
         runs = [{"kind": "random", "nobj": rng.choice([1, 2]), "batch": rng.randint(1, 3),
-                 "calls": [rng.randint(1, 2)] if rng.random() < 0.85 else [], "seed": rng.randint(0, 999)} for _ in range(n)]
+                 "calls": [rng.randint(1, 2)] if rng.random() < 0.85 else [], "seed": rng.randint(0, 999),
+                 "cells": rng.choice(["benign", "benign", "hostile"])} for _ in range(n)]
         same.append({"clock": "const" if t % 2 == 0 else "real", "runs": runs, "same_second": True})
     early = []
     for t in range(ck.pick(2, 8)):
         n = rng.randint(2, 3)
         runs = [{"kind": rng.choice(["random", "random", "cbo"]), "nobj": rng.choice([1, 2]), "batch": rng.randint(1, 3),
-                 "calls": [rng.randint(1, 3) for _ in range(rng.randint(1, 2))], "seed": rng.randint(0, 999)} for _ in range(n)]
+                 "calls": [rng.randint(1, 3) for _ in range(rng.randint(1, 2))], "seed": rng.randint(0, 999),
+                 "cells": rng.choice(["benign", "benign", "hostile"])} for _ in range(n)]
         early.append({"clock": "const" if t % 2 == 0 else "real", "runs": runs, "early": True})
     same = same + early
     for s in core + extra + same:
@@ -984,6 +1198,7 @@ def _scenarios(ck):
             r.setdefault("wide", 0)
             r.setdefault("fail", "none")
             r.setdefault("seed", 1)
+            r.setdefault("cells", "benign")
     return core + extra + same
 
 
@@ -1049,12 +1264,31 @@ def _size(scn):
 
 
 def _opts(scn, phase):
-    last = scn["runs"][-1]
     if phase == "pareto-rewrite":
         return "nobj>=2"
     if phase == "Search.__init__":
         return "results.csv exists" + (",same time stamp" if scn.get("clock") == "const" else "")
     return "any"
+
+
+def _failer(ck, scn, case, state, phase, opts, own):
+    """the `fail(clause, what, detail)` of one judged disk state: at most one violation per state; the fingerprint
+    names the clause, the phase of the killed call, the options and the input class (`hostile`: of the search
+    that wrote the file, unless the caller says which search it is about)"""
+    def fail(clause, what, detail, hostile=None):
+        if state["failed"]:
+            return
+        state["failed"] = True
+        tag = _cells_tag(scn, own) if hostile is None else (",cells=csv-special" if hostile else "")
+        ck.fail(_fp_nd(scn) if clause is None else f"C15|{clause}|{phase}|{opts}{tag}", what, case, detail)
+    return fail
+
+
+def _cells_tag(scn, own):
+    """input class of the failing case: the search that owns results.csv stores text with CSV-special characters"""
+    runs = scn["runs"]
+    r = runs[own] if 0 <= own < len(runs) else runs[-1]
+    return ",cells=csv-special" if _is_hostile(r) else ""
 
 
 class _Eval:
@@ -1102,7 +1336,7 @@ def _check_record(ck, ev, scn, rec):
     for g in gs:
         ck.count("group:" + g["kind"])
     ck.count("writes-per-dump>1", sum(1 for g in gs if g["kind"] == "dump" and sum(1 for i in g["ops"] if ops[i]["op"] == "write") > 1))
-    torn = [o for o in ops if o["op"] == "write" and not o["data"].endswith("\n")]
+    torn = [o for o in ops if o["op"] == "write" and not o.get("complete", True)]
     if torn:
         ck.fail("C15|write-splits-a-row|Evaluator.dump_jobs_done_to_csv|" + ("wide" if scn["runs"][-1].get("wide") else "any"),
                 "a write() call carries an incomplete CSV line: a kill after it leaves a torn row on disk", case,
@@ -1138,12 +1372,8 @@ def _check_record(ck, ev, scn, rec):
     text = rec["files"].get("results.csv")
     post = rec.get("post", {})
     state = {"failed": False}
-
-    def fail(clause, what, detail):
-        if not state["failed"]:
-            state["failed"] = True
-            ck.fail(_fp_nd(scn) if clause is None else f"C15|{clause}|finished|any", what, case, detail)
     fown = _tag_owner(ops).get("results.csv", 0) if text is not None else len(scn["runs"]) - 1
+    fail = _failer(ck, scn, case, state, "finished", "any", fown)
     _judge(ck, ev, scn, case, "finished", text, fown, rec["done"],
            [] if scn["runs"][fown].get("elsewhere") else _dumped_jobs(rec["dumped"], fown), post, fail, state)
     _check_post(ck, ev, scn, case, "finished", text, rec, fail)
@@ -1152,7 +1382,7 @@ def _check_record(ck, ev, scn, rec):
 
 
 def _has_success(text):
-    rows = list(csv.reader(io.StringIO(text)))
+    rows = _records(text)
     if len(rows) < 2:
         return False
     cols = [i for i, c in enumerate(rows[0]) if c == "objective" or re.match(r"objective_\d+$", c)]
@@ -1221,22 +1451,64 @@ def _check_snapshots(ck, scn, k, snaps, files, phase, case):
                 {"lost_snapshot_head": lost[0][:300], "files": sorted(files), "phase": phase})
 
 
+def _cell_eq(want, got):
+    """a text cell as pandas hands it back: the empty string is read as a missing value"""
+    return got == want or (want == "" and got is None)
+
+
+def _frame_diff(frame, ids, rows, hdr):
+    """does a DataFrame summary show exactly the table `hdr` + `rows` (records read off the bytes)?  None = yes"""
+    if "err" in frame:
+        return {"raised": frame["err"]}
+    if frame["n"] != len(rows) or frame.get("job_id") != ids:
+        return {"rows_in_frame": frame["n"], "job_ids_in_frame": frame.get("job_id"), "rows_on_disk": len(rows), "job_ids_on_disk": ids}
+    for col, vals in frame.get("cells", {}).items():
+        if col not in hdr:
+            continue
+        c = hdr.index(col)
+        for r, v in zip(rows, vals):
+            if c < len(r) and not _cell_eq(r[c], v):
+                return {"column": col, "on_disk": r[c], "in_frame": v}
+    return None
+
+
 def _judge(ck, ev, scn, case, phase, text, own, done_lines, dumped, post, fail, state):
     """the oracle on one state of the disk: `text` = bytes of results.csv (None = absent), `own` = the search that
     wrote it, `done_lines` = the run-functions' completion log, `dumped` = jobs whose dump_jobs_done_to_csv call had
-    returned (the harness's own log, not the file trace), `post` = what fit_surrogate / a continuing search did"""
+    returned (the harness's own log, not the file trace), `post` = what pandas / fit_surrogate / a continuing search did"""
     done, status = _done_jobs(done_lines), _done_status(done_lines)
+    logged = _done_cells(done_lines, own)
+    expect = [{"id": j, "cells": [[c, v] for c, v in sorted(cells.items())]} for j, cells in sorted(logged.items())]
 
     def on_check(rep):
         lines = rep["lines"]
+        if text is not None:
+            # L2 of the text layer: the reader model against csv.reader on the same bytes, the writer model against the bytes
+            py = _py_records(text)
+            if py is None:
+                ck.count("bytes:csv.reader refuses the text")
+            elif rep["records"] != py:
+                k = next((i for i, (a, b) in enumerate(zip(rep["records"], py)) if a != b), min(len(py), len(rep["records"])))
+                ck.mismatch(case, {"reader": "Csv.parseFile != csv.reader on the bytes of results.csv", "record": k,
+                                   "model": rep["records"][k:k + 1], "csv.reader": py[k:k + 1]})
+            else:
+                ck.count("bytes:reader-model == csv.reader")
+            if rep["visible"] and not rep["rerender_equal"]:
+                ck.mismatch(case, {"writer": "the records read back, rendered by the writer model (quotes iff , \" \\r \\n; \\r\\n), are not the bytes on disk",
+                                   "phase": phase, "bytes_head": text[:300]})
+            elif rep["visible"]:
+                ck.count("bytes:writer-model renders the same bytes" + (",with-quoted-cells" if '"' in text else ""))
         if not rep["visible"]:
             if text is not None and not rep["wf"] and _headerless(scn, lines, phase):
                 state["failed"] = True
                 ck.fail(FP_REUSE, "results.csv has no header line: the evaluator kept appending as for its previous search", case,
                         {"lines": lines[:6], "bytes_head": text[:200]})
             elif text is not None and not rep["wf"]:
-                fail("wellformed-or-absent", f"results.csv ({phase}) is neither absent nor header + complete rows "
-                     f"({len(text)} bytes on disk, {len(done)} evaluations had finished)", {"lines": lines[-6:], "bytes_head": text[:200]})
+                nrows = sum(1 for l in lines if l[0] != "h")
+                fail("wellformed-or-absent", f"results.csv ({phase}) is neither absent nor header + one complete row per evaluation: "
+                     f"{len(text)} bytes on disk read back to {nrows} records below the header, {len(done)} evaluations had finished",
+                     {"lines": lines[-6:], "bytes_head": text[:200],
+                      "records_not_rows": [r for r, l in zip(rep["records"], lines) if l[0] == "t"][:3]})
             elif text is None:
                 fail("rows-lost", "results.csv is absent although a dump had returned", {"dumped": dumped})
             else:
@@ -1248,6 +1520,17 @@ def _judge(ck, ev, scn, case, phase, text, own, done_lines, dumped, post, fail, 
                          {"missing": [j for j in dumped if j not in rows], "rows": len(rows), "dumped": len(dumped)})
         if text is None:
             return
+        # the cells the run-functions logged (categorical value, metadata strings), looked up by column name
+        if rep["visible"] and not rep["cells_ok"]:
+            recs = rep["records"]
+            jc = recs[0].index("job_id")
+            shown = [{"job": j, "logged": logged.get(j), "on_disk": [dict(zip(recs[0], r)) for r in recs[1:] if len(r) > jc and r[jc] == str(j)][:2]}
+                     for j in rep["bad_expect"][:2]]
+            for d in shown:
+                d["on_disk"] = [{c: v for c, v in r.items() if c in CELL_COLUMNS or c == "job_id"} for r in d["on_disk"]]
+            fail("cells", "a row on disk does not show the values its evaluation had (or an evaluation has two rows)", {"rows": shown})
+        elif rep["visible"] and expect:
+            ck.count("bytes:cells of %d+ evaluations read back" % (10 * (len(expect) // 10)) if len(expect) >= 10 else "bytes:cells read back")
         # a row of an evaluation that succeeded must carry its objectives
         bad = _bad_objective_rows(text, own, status)
         if bad:
@@ -1263,7 +1546,30 @@ def _judge(ck, ev, scn, case, phase, text, own, done_lines, dumped, post, fail, 
                 ck.mismatch(case, {"reload_model": rep["reload"], "fit_surrogate": post["fit"]})
             if not real_ok:
                 fail("reload", f"CBO.fit_surrogate cannot load results.csv ({phase})", post["fit"])
-    ev.ask({"op": "check", "text": text, "sid": own, "done": done, "dumped": dumped}, on_check)
+        # what the readers get out of bytes the checker accepts: exactly the evaluations on disk
+        if rep["bytes_ok"] and rep["records"] and "job_id" in rep["records"][0]:
+            hdr, recs = rep["records"][0], rep["records"][1:]
+            jc = hdr.index("job_id")
+            ids = [int(r[jc]) for r in recs]
+            if "pandas" in post:
+                d = _frame_diff(post["pandas"], ids, recs, hdr)
+                if d is None:
+                    ck.count("reload:pandas.read_csv gives the rows on disk")
+                elif "raised" in d and post.get("fit") != "ok":
+                    pass  # reported by the reload clause above
+                else:
+                    # bytes the reader model accepts, read differently by pandas: the model of the reader is off
+                    ck.mismatch(case, {"pandas.read_csv": d, "phase": phase})
+            if post.get("fit") == "ok":
+                if not post.get("fit_read"):
+                    ck.count("reload:fit_surrogate's read not observed")
+                else:
+                    d = _frame_diff(post["fit_read"][-1], ids, recs, hdr)
+                    if d is None:
+                        ck.count("reload:fit_surrogate read the rows on disk")
+                    elif "pandas" in post and _frame_diff(post["pandas"], ids, recs, hdr) is None:
+                        fail("reload", f"CBO.fit_surrogate does not read the evaluations that are in results.csv ({phase})", d)
+    ev.ask({"op": "check", "text": text, "sid": own, "done": done, "dumped": dumped, "expect": expect, "want_records": True}, on_check)
 
 
 def _check_kill(ck, ev, scn, rec, gs, runs, k, res):
@@ -1299,12 +1605,7 @@ def _check_kill(ck, ev, scn, rec, gs, runs, k, res):
     text = res["files"].get("results.csv")
     post = res.get("post", {})
     state = {"failed": False}
-
-    def fail(clause, what, detail):
-        if state["failed"]:
-            return
-        state["failed"] = True
-        ck.fail(_fp_nd(scn) if clause is None else f"C15|{clause}|{phase}|{_opts(scn, phase)}", what, case, detail)
+    fail = _failer(ck, scn, case, state, phase, _opts(scn, phase), own)
 
     _judge(ck, ev, scn, case, phase, text, own, res["done"], dumped, post, fail, state)
 
@@ -1379,11 +1680,7 @@ def _check_selfkill(ck, ev, scn, sk, res):
         own = max(cands) if cands else cur
     dumped = [j for j in alld if j[0] == own] if own in here else []
     state = {"failed": False}
-
-    def fail(clause, what, detail):
-        if not state["failed"]:
-            state["failed"] = True
-            ck.fail(_fp_nd(scn) if clause is None else f"C15|{clause}|{phase}|any", what, case, detail)
+    fail = _failer(ck, scn, case, state, phase, "any", own)
     _judge(ck, ev, scn, case, phase, text, own, res["done"], dumped, res.get("post", {}), fail, state)
     _check_snapshots(ck, scn, None, res["snaps"], res["files"], phase, case)
     _check_post(ck, ev, scn, case, phase, text, res, fail)
@@ -1400,7 +1697,7 @@ def _check_torn(ck, ev, scn, case, tv, before, own, done, dumped):
         return
 
     text = tv["text"]
-    trimmed = text[: text.rfind("\n") + 1]
+    trimmed = _complete_prefix(text)  # without the record the text ends inside of
     loader = "fit_surrogate loads it" if tv["fit"] == "ok" else "fit_surrogate raises"
 
     def on_trim(rep):
@@ -1429,8 +1726,9 @@ def _check_post(ck, ev, scn, case, phase, text, res, fail):
     if "crash" in post:
         raise HarnessError("continuation child crashed: " + str(post["crash"])[-800:])
     before, after = res["files"], res.get("files_after", {})
+    hostile = post.get("cells") == "hostile"  # of the continuing search (it is of the kind that wrote the file it finds)
     if post.get("cont") != "ok":
-        ev.ask(None, lambda _: fail("continue", f"a new search in the log_dir left by a kill in {phase} does not run", post.get("cont")))
+        ev.ask(None, lambda _: fail("continue", f"a new search in the log_dir left by a kill in {phase} does not run", post.get("cont"), hostile))
         return
     new = post.get("new_files", [])
     if text is not None:
@@ -1442,10 +1740,16 @@ def _check_post(ck, ev, scn, case, phase, text, res, fail):
             ck.fail(FP_NO_DESTROY, "a new search changed an earlier result file", case, {"file": n})
     nsid = len(scn["runs"])
 
+    logged = _done_cells(res.get("done_after", []), nsid)
+
     def on_cont(rep):
         if not rep["visible"]:
-            fail("continue", "the results.csv written by the continuing search is not well formed", rep["lines"])
-    ev.ask({"op": "check", "text": after.get("results.csv"), "sid": nsid, "done": _done_jobs(res.get("done_after", [])), "dumped": []}, on_cont)
+            fail("continue", "the results.csv written by the continuing search is not well formed", rep["lines"], hostile)
+        elif not rep["cells_ok"]:
+            fail("continue", "a row written by the continuing search does not show the values its evaluation had",
+                 {"jobs": rep["bad_expect"][:3], "logged": {j: logged.get(j) for j in rep["bad_expect"][:3]}}, hostile)
+    ev.ask({"op": "check", "text": after.get("results.csv"), "sid": nsid, "done": _done_jobs(res.get("done_after", [])), "dumped": [],
+            "expect": [{"id": j, "cells": [[c, v] for c, v in sorted(cells.items())]} for j, cells in sorted(logged.items())]}, on_cont)
 
 
 # --------------------------------------------------------------------------- entry points
@@ -1500,7 +1804,7 @@ def _run_cases(ck, pool, scns, kills_for, selfkills=True):
         text = rec["files"].get("results.csv")
         if len(scn["runs"]) == 1 and text and _has_success(text) and text.count("\n") >= 3 and len(mut) < ck.pick(4, 12):
             mut.append((scn, _mutations(text)))
-    fits = list(pool.map(_task_fit, [{"texts": m, "wide": scn["runs"][0]["wide"]} for scn, m in mut]))
+    fits = list(pool.map(_task_fit, [{"texts": m, "wide": scn["runs"][0]["wide"], "hostile": _is_hostile(scn["runs"][0])} for scn, m in mut]))
     for (scn, m), fit in zip(mut, fits):
         for name, text in m.items():
             def on_mut(rep, name=name, scn=scn, fit=fit):
@@ -1539,6 +1843,7 @@ def _inprocess_slice(ck):
                                                    {"kind": "eds", "nobj": 1, "batch": 2, "calls": [2]}]},
         {"clock": "real", "runs": [{"kind": "random", "nobj": 1, "batch": 2, "calls": [2], "fail": "all"}]},
         {"clock": "real", "runs": [{"kind": "cbo-dummy", "nobj": 2, "batch": 3, "calls": [{"t": 1}], "sleep": True}]},
+        {"clock": "real", "runs": [{"kind": "cbo", "nobj": 2, "batch": 2, "calls": [3, 2], "fail": "some", "cells": "hostile", "seed": 0}]},
     ]
     ev = _Eval(ck)
     base = tempfile.mkdtemp(prefix="inproc", dir=_scratch())
@@ -1572,16 +1877,13 @@ def _inprocess_slice(ck):
             own = max(j[0] for j in done) if done else 0
 
             state = {"failed": False}
-
-            def fail(clause, what, detail, case=case, state=state, scn=scn):
-                if not state["failed"]:
-                    state["failed"] = True
-                    ck.fail(_fp_nd(scn) if clause is None else f"C15|{clause}|finished|any", what, case, detail)
+            fail = _failer(ck, scn, case, state, "finished", "any", own)
             dl = [l for l in sidef.get("done.log", "").split("\n") if l]
             dumped = _dumped_jobs([l for l in sidef.get("dumped.log", "").split("\n") if l], own)
             _judge(ck, ev, scn, case, "finished", fin, own, dl, dumped if fin is not None else [], post, fail, state)
             if post.get("cont") != "ok":
-                ck.fail("C15|continue|finished|any", "a new search in the log_dir of a finished search does not run", case, post.get("cont"))
+                ck.fail("C15|continue|finished|any" + (",cells=csv-special" if post.get("cells") == "hostile" else ""),
+                        "a new search in the log_dir of a finished search does not run", case, post.get("cont"))
             ck.case(case, nontrivial=True)
             ck.count("in-process scenario")
         ev.flush()
@@ -1594,7 +1896,8 @@ def _inprocess_slice(ck):
 
 def run(ck):
     ck.rule = ("real RandomSearch/CBO(ET) searches (serial evaluator; 1-3 objectives; batches 1-8; 1-3 search() calls; failing "
-               "evaluations none/first batch/some/all; narrow and wide rows; 1-5 searches per log_dir, real or constant clock) traced "
+               "evaluations none/first batch/some/all; narrow and wide rows; stored text benign or with CSV-special characters "
+               "(categorical value, metadata strings and key, failure label); 1-5 searches per log_dir, real or constant clock) traced "
                "with strace; kill injected before every recorded system call on results.csv/results.csv.tmp (quick: sample with "
                "first/last/creation/rename/rewrite points); distinct by (scenario, kill point); non-trivial = killed run")
     ck.assumptions = [
@@ -1605,8 +1908,10 @@ def run(ck):
     ]
     ck.trusted_extra = [
         "strace 6.1 (-f -y -p attach, -P path filter, inject=…:signal=KILL:when=n) as observer and kill injector",
-        "the text->line parser of Drivers/C15.lean and the strace output parser of harness/c15.py",
-        "pandas.read_csv / csv.DictWriter / the OS file system are modelled, not verified",
+        "the strace output parser of harness/c15.py (the bytes->lines reading is now the model's `abstract`)",
+        "pandas.read_csv / to_csv / csv.DictWriter / the OS file system are modelled, not verified (writer and reader model are "
+        "compared with the real bytes, csv.reader and pandas.read_csv at every judged state)",
+        "the harness's own CSV scanner (_csv_scan, same state machine as Model/Csv.lean; used to split write payloads and torn files)",
     ]
     os.environ["C15_SCRATCH"] = f"{SCRATCH}_{os.getpid()}"
     _inprocess_slice(ck)
@@ -1629,6 +1934,7 @@ def run(ck):
                 ck.count("call:timeout", sum(1 for c in r["calls"] if isinstance(c, dict)))
                 ck.count("evaluator:" + ("reused" if r.get("reuse") else "other-directory" if r.get("elsewhere") else "own"))
                 ck.count("fail:" + r["fail"])
+                ck.count("cells:" + ("csv-special characters" if _is_hostile(r) else "benign") + (",nobj>=2" if r["nobj"] > 1 else ",nobj=1"))
                 ck.count("wide" if r["wide"] else "narrow")
             ck.count("clock:" + s["clock"])
         _run_cases(ck, pool, scns, lambda scn, ops, gs: _kill_points(ck, scn, ops, gs))
